@@ -26,7 +26,8 @@ Record case := {
   c_checker : string;       (* the checker (type name) that emits it *)
   c_fe : bool;              (* file has ---@diagnostic enable: code *)
   c_wd : bool;              (* code in diagnostics.disable *)
-  c_meta : bool;            (* LuaModuleIndex::is_meta_file (---@meta in a file known to the module index) *)
+  c_tag : meta_tag;         (* the ---@meta tag of the file *)
+  c_is_meta : bool;         (* LuaModuleIndex::is_meta_file as observed on the real index *)
   c_fd : bool;              (* file-level ---@diagnostic disable: code *)
   c_we : bool;              (* code in diagnostics.enables *)
   c_enable : bool;          (* diagnostics.enable *)
@@ -42,7 +43,7 @@ Definition model_obs (c : case) : obs :=
   let cfg := {| cfg_enable := c_enable c; ws_disabled := only (c_wd c) (c_code c); ws_enabled := only (c_we c) (c_code c);
                 cfg_severity := match c_sev c with Some s => [(c_code c, s)] | None => [] end;
                 cfg_globals := []; cfg_globals_regex := []; cfg_level := c_level c |} in
-  let f := {| f_enabled := only (c_fe c) (c_code c); f_disabled := only (c_fd c) (c_code c); f_meta := c_meta c;
+  let f := {| f_enabled := only (c_fe c) (c_code c); f_disabled := only (c_fd c) (c_code c); f_meta := meta_flag_of_tag (match c_ws c with Some _ => true | None => false end) (c_tag c);
               f_workspace := c_ws c; f_suppressed := fun _ _ => false |} in
   let k := {| k_codes := codes_of_checker (c_checker c);
               k_body := fun _ => [ {| e_code := c_code c; e_range := (0, 0); e_msg := []; e_data := None |} ] |} in
@@ -52,7 +53,10 @@ Definition model_obs (c : case) : obs :=
   | Some (d :: _) => match d_severity d with Some s => ObsPresent s | None => ObsAbsent end
   end.
 
-Definition check_case (c : case) : bool := obs_eqb (model_obs c) (c_obs c).
+(** the model's meta flag for the tag is the real index's flag, and the model's verdict is the real one *)
+Definition check_case (c : case) : bool :=
+  Bool.eqb (meta_flag_of_tag (match c_ws c with Some _ => true | None => false end) (c_tag c)) (c_is_meta c)
+  && obs_eqb (model_obs c) (c_obs c).
 
 Record gcase := {
   g_names : list name;                    (* the global names used by the program, in order *)
